@@ -159,6 +159,7 @@ Bucket_grow(Bucket *self, int newsize, int noval)
             newsize = self->size * 2;
         if (newsize < 0)    /* int overflow */
             goto Overflow;
+        VERIF_PROBE(10);
         UNLESS (keys = BTree_Realloc(self->keys, sizeof(KEY_TYPE) * newsize))
             return -1;
 
@@ -178,6 +179,7 @@ Bucket_grow(Bucket *self, int newsize, int noval)
     {
         if (newsize < 0)
             newsize = MIN_BUCKET_ALLOC;
+        VERIF_PROBE(11);
         UNLESS (self->keys = BTree_Malloc(sizeof(KEY_TYPE) * newsize))
             return -1;
         UNLESS (noval)
@@ -597,6 +599,7 @@ bucket_split(Bucket *self, int index, Bucket *next)
         index = self->len / 2;
 
     next_size = self->len - index;
+    VERIF_PROBE(20);
 
     next->keys = BTree_Malloc(sizeof(KEY_TYPE) * next_size);
     if (!next->keys)
